@@ -613,6 +613,16 @@ def check_history(ctx, run, stream, diag=False):
     elif not any(s["wf"] for s in run.steps) and run.init_outcome == "ok":
         fails, _ = check_point(ctx, run, stream, diag=diag)
         bad = report_failures(ctx, run, fails, stream)
+    elif run.init_outcome == "ok":
+        # an accepted call broke the structure (C14 reports that); C16's own clause "every report succeeds" still applies
+        rep = reports(run.sys)
+        fails = [("report_raises", {"report": name, "exception": r[1]}) for name, r in rep.items()
+                 if r[0] == "exc" and not (name in ("solve", "rail_rep") and r[1] in ("ValueError", "RuntimeError"))]
+        if fails:
+            ctx.stats["%s:report_raises_on_broken_structure" % stream] += 1
+            ctx.oracle({"history": hist, "calls": H.short(hist)}, "report_raises", run.steps[-1]["op"]["op"], {},
+                       dict(fails[0][1], stream=stream, note="after an accepted call; the structure is no longer well-formed (see C14)"))
+            bad = True
     acc = [s for s in run.steps if s["outcome"] == "ok"]
     edits = sum(1 for s in acc if s["op"]["op"] in ("change_comp", "del_comp"))
     ctx.case(key=c14._hist_key(hist), nontrivial=(len(acc) >= 5 and edits >= 1 and run.init_outcome == "ok"
@@ -716,8 +726,7 @@ def run(ctx):
         if r.init_outcome == "ok":
             G.mux_family(ctx.rng, r.apply)
             ctx.stats["stream:mux_family:histories"] += 1
-            if not any(s_["wf"] for s_ in r.steps):
-                check_history(ctx, r, "mux_family")
+            check_history(ctx, r, "mux_family")
 
 
 def search(ctx):
